@@ -232,6 +232,8 @@ def kraus_valid(repo: Repo) -> List[Ob]:
         fi = repo.func(q)
         cfg = CFG(fi.node)
         _, limports, _ = local_bindings(fi.node)
+        from ..types import Typer
+        typer = Typer(repo, fi)
 
         def is_dim_test(e):
             t = src(e)
@@ -271,7 +273,7 @@ def kraus_valid(repo: Repo) -> List[Ob]:
                     ups.append(n)
             for x in walk_node(n):
                 mc = method_call(x)
-                if mc and mc[1] == "apply_kraus" and isinstance(mc[0], ast.Name) and mc[0].id in ("ps", "product_state", "new_ps"):
+                if mc and mc[1] == "apply_kraus" and isinstance(mc[0], ast.Name) and typer.classes(mc[0]) == {"ProductState"}:
                     ups.append(n)
         if not ups:
             raise AnalysisError(f"KRAUS-VALID: no update found in {q}")
